@@ -1,5 +1,6 @@
 import Dbg.Model.Export
 import Dbg.Spec.C01
+import Dbg.Props.C01
 /-! # C18 — Node k-mer iteration obeys the iterator contract
 
 `NIter` (Model/Export.lean) is the model of `NodeKmerIter` after the repair of D3.  It is proved to be simulated by
@@ -192,6 +193,71 @@ theorem C18_end_is_sticky (L : List Seq) (i : Nat) (hi : L.length ≤ i) (calls 
     · cases c <;> simp [specCall] <;> omega
     · apply ih _ _ o ho
       cases c <;> simp [specCall] <;> omega
+
+theorem flatMap_congr_mem {α β} (l : List α) (f g : α → List β) (h : ∀ a ∈ l, f a = g a) : l.flatMap f = l.flatMap g := by
+  induction l with
+  | nil => rfl
+  | cons a t ih => rw [List.flatMap_cons, List.flatMap_cons, h a (by simp), ih (fun x hx => h x (by simp [hx]))]
+
+theorem specAnswers_drain (L : List Seq) (i m : Nat) (hi : i ≤ L.length) (hm : i + m = L.length + 1) :
+    specAnswers L i (List.replicate m .next) = (L.drop i).map some ++ [none] := by
+  induction m generalizing i with
+  | zero => omega
+  | succ m ih =>
+    simp only [List.replicate_succ, specAnswers, specCall]
+    by_cases hlt : i < L.length
+    · rw [show min (i + 1) L.length = i + 1 by omega, ih (i + 1) (by omega) (by omega), List.getElem?_eq_getElem hlt]
+      rw [List.drop_eq_getElem_cons hlt]; simp only [List.map_cons, List.cons_append]
+    · have hi' : i = L.length := by omega
+      have hm0 : m = 0 := by omega
+      subst hm0
+      rw [List.getElem?_eq_none (by omega), List.drop_eq_nil_of_le (by omega)]
+      simp [specAnswers]
+
+/-- the k-mers a node yields when its iterator is drained (one call past the reported count) -/
+def drained (K : Nat) (s : Seq) : List (Option Seq) :=
+  match NIter.start K s with
+  | some it => answers it (List.replicate (it.numKmers + 1) .next)
+  | none => []
+
+/-- draining yields the node's k-mers in order, then end-of-iteration -/
+theorem C18_drain (K : Nat) (s : Seq) (hK : 1 ≤ K) (h : K ≤ s.length) :
+    drained K s = (windowsOf K s).map some ++ [none] := by
+  obtain ⟨it, e, hs⟩ := start_sim K s h
+  unfold drained
+  rw [e]
+  simp only
+  rw [answers_sim K s hK h _ it 0 hs, hs.hn, ← windowsOf_length K s h]
+  exact specAnswers_drain (windowsOf K s) 0 _ (by omega) (by omega)
+
+/-- **C18 (all nodes).** Draining the iterator of every node of a compressed graph visits every k-mer of the table
+    exactly once (canonically): the visited k-mers are a permutation of the table's keys, so they are pairwise distinct
+    (each occupies its own perfect-hash slot). -/
+theorem C18_all_nodes {D : Type} {T : Compress.Table D} {K : Nat} {st : Bool} {join : D → D → Bool} (reduce : D → D → D)
+    (wf : Compress.WF T K st) (hes : Compress.ExtSym T st) (hj : ∀ a b, join a b = join b a) :
+    ∃ out, Compress.compressKmersC T st join reduce = some out ∧
+      (out.flatMap fun x => ((drained K x.1.seq).filterMap id).map (fun w => (Compress.canonOf st w).1)).Perm (T.map (·.key)) ∧
+      (out.flatMap fun x => ((drained K x.1.seq).filterMap id).map (fun w => (Compress.canonOf st w).1)).Nodup := by
+  obtain ⟨out, h1, h2, h3⟩ := Compress.C01_partition (join := join) reduce wf hes hj
+  have hd : ∀ x ∈ out, (drained K x.1.seq).filterMap id = windowsOf K x.1.seq := by
+    intro x hx
+    rw [C18_drain K x.1.seq wf.kpos (h3 x hx), List.filterMap_append]
+    simp [List.filterMap_map, Function.comp_def]
+  have heq : (out.flatMap fun x => ((drained K x.1.seq).filterMap id).map (fun w => (Compress.canonOf st w).1)) =
+      (out.flatMap fun x => (windowsOf K x.1.seq).map (fun w => (Compress.canonOf st w).1)) := by
+    apply flatMap_congr_mem
+    intro x hx; rw [hd x hx]
+  have hnd : (T.map (·.key)).Nodup := by
+    rw [List.Nodup, List.pairwise_iff_getElem]
+    intro i j hi hj hij
+    simp only [List.getElem_map]
+    intro hk
+    simp only [List.length_map] at hi hj
+    have := wf.distinct i j T[i] T[j] (List.getElem?_eq_getElem hi) (List.getElem?_eq_getElem hj) hk
+    omega
+  refine ⟨out, h1, ?_, ?_⟩
+  · rw [heq]; exact h2
+  · rw [heq]; exact h2.nodup_iff.mpr hnd
 
 example : ∃ it, NIter.start 3 [0,1,2,3,0] = some it ∧
     answers it [.nth 6, .next, .next] = [none, none, none] := ⟨_, rfl, by decide⟩
